@@ -334,8 +334,9 @@ def run_property(pid: str, tier: str, seed: int, jobs: int = 16, only: Optional[
         "wall_s": round(wall, 2),
         "violations": violations,
     }
-    os.makedirs(os.path.join(ROOT, "evidence"), exist_ok=True)
-    with open(os.path.join(ROOT, "evidence", f"{pid}.json"), "w") as f:
+    evdir = "evidence" if not os.environ.get("VERIF_REPO") else "evidence-scratch"  # never mix scratch runs into the evidence
+    os.makedirs(os.path.join(ROOT, evdir), exist_ok=True)
+    with open(os.path.join(ROOT, evdir, f"{pid}.json"), "w") as f:
         json.dump(ev, f, indent=1, default=str)
     print(
         f"SUMMARY property={pid} tier={tier} obligations={n_ob} discharged={discharged} "
